@@ -888,15 +888,19 @@ impl Default for G1Projective {
 
 impl ConstantTimeEq for G1Projective {
     fn ct_eq(&self, other: &Self) -> Choice {
-        // Is (x, y, z) equal to (x', y, z') when converted to affine?
-        // => (x/z , y/z) equal to (x'/z' , y'/z')
-        // => (xz' == x'z) & (yz' == y'z)
+        // Is (x, y, z) equal to (x', y', z') when converted to affine?
+        // blst points are in Jacobian coordinates, so
+        // => (x/z^2 , y/z^3) equal to (x'/z'^2 , y'/z'^3)
+        // => (xz'^2 == x'z^2) & (yz'^3 == y'z^3)
 
-        let x1 = self.x() * other.z();
-        let y1 = self.y() * other.z();
+        let z1_sq = self.z().square();
+        let z2_sq = other.z().square();
 
-        let x2 = other.x() * self.z();
-        let y2 = other.y() * self.z();
+        let x1 = self.x() * z2_sq;
+        let y1 = self.y() * z2_sq * other.z();
+
+        let x2 = other.x() * z1_sq;
+        let y2 = other.y() * z1_sq * self.z();
 
         let self_is_zero = self.is_identity();
         let other_is_zero = other.is_identity();
